@@ -4,7 +4,7 @@ import engines.search as se
 from props._searchprop import SEARCH_TARGETS, SEARCH_TRUST, run_search_prop, replay_search
 
 PROP = 'C04'
-LEAN_TARGETS = SEARCH_TARGETS + ['MM.Props.C04Series']
+LEAN_TARGETS = SEARCH_TARGETS + ['MM.Props.C04Series', 'MM.Model.DiagTests', 'MM.Model.Numeric']
 THEOREMS = ['MM.Search.' + n for n in ('C04_score_of_design', 'C04_greedy_score', 'exhaustive_sub_evaluated')] + ['MM.Data.C04_series', 'MM.Data.C04_series_length', 'MM.Data.C04_window']
 TRUSTED_BASE = SEARCH_TRUST + ['aliasing of stored diagnostics objects (deepcopy) and float summation order are runtime behaviour: carried by the oracle and the push-log correspondence, not by a theorem (partial)']
 
@@ -12,7 +12,64 @@ TRUSTED_BASE = SEARCH_TRUST + ['aliasing of stored diagnostics objects (deepcopy
 SUPPORTS_DEEPEN = True
 
 
+def tests_against_model(out, tier):
+  """The four test outcomes in the score of returned designs vs the Lean model of the tests (MM/Model/DiagTests.lean at Float)."""
+  import math
+  from scipy import stats
+  import engines.numeric as en
+  res = se.get_results(tier)
+  sess = en.ModelSession()
+  pend = []
+  for r in se.iter_results(res):
+    p = r['resolved']
+    n_test = int(p['n_test'])
+    for which in ('exh', 'greedy'):
+      for d in (r[which].get('result') or [])[:2]:
+        if d['diag_x'] is None or len(pend) >= (80 if tier == 'quick' else 2000):
+          continue
+        x, y = d['diag_x'], d['diag_y']
+        n = len(x)
+        if n - n_test < 3 or any(math.isnan(v) for v in d['score']):
+          continue
+        tq = stats.t.ppf(p.get('sig_level', 0.9), n - n_test - 2)
+        sess.set_series(x, y, [0.0], [0.0])
+        rq = sess.req(f'tests {n_test} {en.bits(tq)} {en.bits(p.get("min_corr", 0.8))} {en.bits(3.0)} {en.bits(1.5)} {en.bits(2.5)}', 1)
+        pend.append((se.case_of(r, which), d, rq, n, n_test, tq))
+  if not pend:
+    return
+  outl = sess.run()
+  n_cmp = 0
+  for case, d, rq, n, n_test, tq in pend:
+    dw, dw_ok, bb_ok, corr_ok, lo, up, has_p, pa, pb = en.parse_vals(outl[rq][0])
+    if has_p:
+      # recover the two standardised arguments from the probes (cdf z -> z and z -> z*z) and push them through scipy's cdf
+      a1, b1 = pa - 1.0, pb - 1.0            # a1 = tq2 - tq1, b1 = tq2^2 - tq1^2
+      ssum = b1 / a1 if a1 != 0 else float('nan')
+      tq1, tq2 = (ssum - a1) / 2, (ssum + a1) / 2
+      prob = 1 - stats.t.cdf(tq1, n - n_test - 2) + stats.t.cdf(tq2, n - n_test - 2)
+      if abs(prob - 0.2) < 1e-6:
+        continue                              # verdict on a knife edge: not compared
+      aa_ok = prob <= 0.2
+    else:
+      aa_ok = True
+    want = [float(corr_ok), float(aa_ok), float(bb_ok), float(dw_ok)]
+    got = [float(v) for v in d['score'][:4]]
+    # knife edges of the other tests
+    if abs(dw - 1.5) < 1e-9 or abs(dw - 2.5) < 1e-9 or abs(d['diag_corr'] - 0.8) < 1e-9:
+      continue
+    n_cmp += 1
+    if want != got:
+      out.mismatch('diag-tests', case, f'design T={d["Tids"]} C={d["Cids"]}: test outcomes in the score {got}, model of the tests gives {want} '
+                   f'(dw={dw}, A/A interval [{lo}, {up}])')
+  out.extra['test_outcomes_compared_with_model'] = n_cmp
+
+
 def run(out, tier, model_ok=True, deepen=False):
+  if model_ok:
+    try:
+      tests_against_model(out, tier)
+    except core.DriverError as e:
+      out.mismatch('diag-tests', None, 'numeric driver failed: ' + str(e)[-200:])
   out.rule = 'oracle: for every returned design at every list position the series held by its diagnostics are compared with the sums of the raw rows of the reported geo IDs over the last n_pretest_max dates, its score tuple / correlation / required impact with values recomputed by fresh diagnostics objects, and no two designs may share a diagnostics object'
   run_search_prop(out, PROP, se.judge_c04, tier, model_ok, deepen=deepen)
 
